@@ -91,7 +91,7 @@ class PtEval:
             if isinstance(node, NamedCallResult):
                 return self._call_result(node, idx)
             if isinstance(node, LoopyCallResult):
-                raise Unsupported("LoopyCallResult in eval_pytato")
+                return self._loopy_call_result(node, idx)
             return self.at(node._container._data[node.name], idx)
         if isinstance(node, A.Roll):
             n = self.dim(node.array.shape[node.axis])
@@ -235,6 +235,32 @@ class PtEval:
             return alg.op("mul", self._cast(node.dtype, m.elem_values, fat(m.elem_values, (k,))),
                           self._cast(node.dtype, node.array, fat(node.array, (col, *idx[1:]))))
         return alg.reduce("sum", [(lo, hi)], body)
+
+    def _loopy_call_result(self, node, idx):
+        """documented meaning of a call to a hand-written loopy kernel: the callee
+        kernel (read into a kernel model) applied to the bound arrays"""
+        import pytato.array as A
+        from pv.sem.knlsem import KernelModel
+        call = node._container
+        key = (id(call.translation_unit), call.entrypoint)
+        cache = self.__dict__.setdefault("_callee_models", {})
+        if key not in cache:
+            cache[key] = KernelModel(call.translation_unit, entry=call.entrypoint)
+        callee = cache[key]
+        fat = self._frozen_at()
+        alg = self.alg
+        bindings = call.bindings
+
+        class CalleeAlg:
+            def __getattr__(self_, n):
+                return getattr(alg, n)
+
+            def read(self_, aname, cidx):
+                b = bindings[aname]
+                if isinstance(b, A.Array):
+                    return fat(b, cidx)
+                return alg.const(b)
+        return callee.at(CalleeAlg(), node.name, idx)
 
     def _call_result(self, node, idx):
         call = node._container
